@@ -85,15 +85,16 @@ def run(tier, seed, replay):
         par = _scan.parents(tree)
         for x in _ast.walk(tree):
             if isinstance(x, _ast.Attribute) and isinstance(x.ctx, (_ast.Store, _ast.Del)) and x.attr in writers:
-                writers[x.attr].add(f"{rel}:{_scan.enclosing_function(x, par)}")
+                # by class: a helper method of the counting rule is still the counting rule
+                fn = _scan.enclosing_function(x, par)
+                writers[x.attr].add(f"{rel}:{fn.split('.')[0] if '.' in fn else fn}")
     allowed = {
         # CheckBlockStart.run decrements it only under `context.scope.tmp_scope is not None`; tmp_scope
         # is never assigned anything but None (obligation frame.scope.tmp_scope_is_always_None)
-        "functions": {"norminette/scope.py:GlobalScope.__init__", "norminette/rules/is_func_declaration.py:IsFuncDeclaration.run",
-                      "norminette/rules/check_block_start.py:CheckBlockStart.run"},
-        "vars": {"norminette/scope.py:Scope.__init__", "norminette/rules/check_variable_declaration.py:CheckVariableDeclaration.run"},
-        "lines": {"norminette/scope.py:Scope.__init__", "norminette/scope.py:Scope.outer",
-                  "norminette/rules/check_line_count.py:CheckLineCount.run"},
+        "functions": {"norminette/scope.py:GlobalScope", "norminette/rules/is_func_declaration.py:IsFuncDeclaration",
+                      "norminette/rules/check_block_start.py:CheckBlockStart"},
+        "vars": {"norminette/scope.py:Scope", "norminette/rules/check_variable_declaration.py:CheckVariableDeclaration"},
+        "lines": {"norminette/scope.py:Scope", "norminette/rules/check_line_count.py:CheckLineCount"},
     }
     non_none = []
     guarded = True
